@@ -3,7 +3,7 @@ import os, sys, json, math
 import vcommon as V
 import c02gen as G
 
-PROP = "coq/C02/Properties_C02.v"
+PROPS = ["coq/C02/Properties_C02.v", "coq/C02/Properties_C02_rot.v", "coq/C02/Properties_C02_sym.v"]
 EXTRACT = "coq/C02/Extract_C02.v"
 DRIVER = "props/C02/driver.ml"
 UNIT = {"c02unit": ["props/C02/unit.cpp"]}
@@ -408,6 +408,25 @@ def replay_obj(kind, lines, extra=None):
     return d
 
 
+def start_parallel(run):
+    """V.standard_start with the three property files compiled concurrently (Print Assumptions over the Reals library
+    costs ~0.9 s per theorem): one make for all dependencies first, then coq_check_properties of each file in its own
+    thread; the results are handed to Run.prove through the normal path"""
+    from concurrent.futures import ThreadPoolExecutor
+    V.coq_make([os.path.relpath(os.path.join(V.ROOT, f), V.COQ)[:-2] + ".vo" for f in PROPS])
+    orig = V.coq_check_properties
+    with ThreadPoolExecutor(len(PROPS)) as ex:
+        res = dict(zip(PROPS, ex.map(lambda f: orig(run.pid, f), PROPS)))
+    V.coq_check_properties = lambda pid, f: res[f] if f in res else orig(pid, f)
+    try:
+        st = V.standard_start(run, PROPS, EXTRACT, DRIVER, UNIT)
+    finally:
+        V.coq_check_properties = orig
+    run.cov["checker_cmd"] = ("make -k -C coq C02/Properties_C02.vo C02/Properties_C02_rot.vo C02/Properties_C02_sym.vo && coqc -Q . CV <each of the three files> "
+                              "(Coq 8.16.1 kernel; the three files are compiled concurrently; native_compute not used)")
+    return st
+
+
 def check(run):
     r = V.rng("C02")
     quick = run.tier == "quick"
@@ -425,7 +444,7 @@ def check(run):
         "rmsd, eigenvector, orientation*, tilt, spinAngle, euler*, distancePairs, fitted groups (centerToReference/rotateToReference/fittingGroup) have no model: search (metamorphic relations) only",
         "alpha, dihedralPC (need residue/segment topology), the path variables (need path files), mapTotal, neuralNetwork, customColvar (not in this build) are not exercised",
     ]
-    st = V.standard_start(run, PROP, EXTRACT, DRIVER, UNIT)
+    st = start_parallel(run)
     if st is None:
         return
     model, exes = st
